@@ -185,6 +185,36 @@ def wf : Expr → Bool
   | .setOr _ _ l r => wf l && wf r
   | .withScalar e => wf e
 
+
+/-! ### C12: the data hypothesis "every stored series carries every label of the universe" -/
+
+/-- the fragment in which every expression has one source and labels only disappear (no rewriting, no `or`, no
+group modifiers, no absent / vector) -/
+def frag12 : Expr → Bool
+  | .sel _ => true
+  | .aggBy _ e => frag12 e
+  | .aggWithout _ e => frag12 e
+  | .topk e => frag12 e
+  | .func e => frag12 e
+  | .binOn _ l _ => frag12 l
+  | .binIgn _ l _ => frag12 l
+  | .setAnd _ _ l _ => frag12 l
+  | .withScalar e => frag12 e
+  | _ => false
+
+/-- label sets of the series `e` can return when every series of every selector carries every label of `U` -/
+def full (U : LS) : Expr → List LS
+  | .sel ms => if ms.any (fun m => m.kind == .eqEmpty && U.contains m.label) then [] else [nameL :: U]
+  | .aggBy g e => (full U e).map fun ls => ls.filter g.contains
+  | .aggWithout g e => (full U e).map fun ls => ls.filter fun n => !g.contains n && n != nameL
+  | .topk e => full U e
+  | .func e => withOrWithoutName (full U e)
+  | .binOn m l _ => withOrWithoutName ((full U l).map fun ls => ls.filter m.contains)
+  | .binIgn m l _ => withOrWithoutName ((full U l).map fun ls => ls.filter fun n => !m.contains n)
+  | .setAnd _ _ l _ => full U l
+  | .withScalar e => withOrWithoutName (full U e)
+  | _ => []
+
 /-- a source accounts for a label set: it can have every label of it -/
 def accounts (s : Src) (ls : LS) : Bool := ls.all (canHave s)
 
